@@ -30,7 +30,11 @@ TYPES = ["t:a", "t:b", "t:c"]
 
 def plan(tier, seed):
     n = 6000 if tier == "quick" else 60000
-    return [{"seed": seed, "lo": i, "hi": min(n, i + BATCH)} for i in range(0, n, BATCH)]
+    specs = [{"seed": seed, "lo": i, "hi": min(n, i + BATCH)} for i in range(0, n, BATCH)]
+    # the same in an interpreter started with -O (test suites are run that way too: assert statements vanish, the helpers must not rely on them)
+    k = 6 if tier == "quick" else 40
+    specs += [{"seed": seed, "lo": 10**6 + i * BATCH, "hi": 10**6 + (i + 1) * BATCH, "interpreter": "optimize"} for i in range(k)]
+    return specs
 
 
 def gt_walk(forest):
@@ -305,6 +309,11 @@ def one(seed, i, res):
 
 def run_case(spec):
     res = {"evals": 0, "nontrivial": [], "counters": {}, "violations": [], "sample": None}
+    if spec.get("interpreter") == "optimize":
+        import sys
+        if not sys.flags.optimize:
+            return {"inconclusive": "the -O case was not started in an optimizing interpreter"}
+        res["counters"]["programs_checked_under_python_O"] = spec["hi"] - spec["lo"]
     for i in range(spec["lo"], spec["hi"]):
         one(spec["seed"], i, res)
     return res
